@@ -154,3 +154,50 @@ func VerifC10Run(partitioner string, hosts []VerifC10Host, ks *KeyspaceMetadata,
 	}
 	return res
 }
+
+// ---- the token-aware policy as the application sees it -----------------------------------------------
+
+// VerifC10NewHost builds an "up" HostInfo from a description (for HostSelectionPolicy.AddHost).
+func VerifC10NewHost(v VerifC10Host) *HostInfo {
+	return &HostInfo{hostId: v.ID, dataCenter: v.DC, rack: v.Rack, connectAddress: v.Addr, port: 9042, tokens: v.Tokens, state: NodeUp}
+}
+
+// VerifC10InitPolicy installs what Session.Init installs in a token-aware policy: the keyspace metadata
+// source (ks; nil = lookup fails), the session keyspace name and a logger.
+func VerifC10InitPolicy(p HostSelectionPolicy, ks *KeyspaceMetadata, keyspace string) bool {
+	t, ok := p.(*tokenAwareHostPolicy)
+	if !ok {
+		return false
+	}
+	t.mu.Lock()
+	defer t.mu.Unlock()
+	t.getKeyspaceName = func() string { return keyspace }
+	t.getKeyspaceMetadata = func(name string) (*KeyspaceMetadata, error) {
+		if ks == nil || name != keyspace {
+			return nil, fmt.Errorf("verif: unknown keyspace %q", name)
+		}
+		return ks, nil
+	}
+	t.logger = verifC10Logger{}
+	return true
+}
+
+// VerifC10Query is a query on keyspace with an explicit routing key.
+func VerifC10Query(keyspace string, key []byte) ExecutableQuery {
+	q := &Query{routingInfo: &queryRoutingInfo{}}
+	q.getKeyspace = func() string { return keyspace }
+	if key == nil {
+		key = []byte{}
+	}
+	q.RoutingKey(key)
+	return q
+}
+
+// VerifC10HashToken is partitioner.Hash(key).String() for the named partitioner.
+func VerifC10HashToken(partitioner string, key []byte) (string, bool) {
+	tr, err := newTokenRing(partitioner, nil)
+	if err != nil {
+		return "", false
+	}
+	return tr.partitioner.Hash(key).String(), true
+}
